@@ -41,13 +41,13 @@ REQUIRED_COUNTERS = {"quick": {"original_fingerprints_compared": 4000, "fingerpr
                                "sibling_vs_fresh_derivation": 1000, "copy_name_checked": 4000, "origin_chain_checked": 3000,
                                "op_results_vs_baseline": 3000, "cond_consistency_checked": 3000, "model_args_vs_reference": 150,
                                "sampler_runs_completed": 150, "gibbs_sweeps_observed": 400, "gibbs_chain_vs_untouched_twin": 10,
-                               "recondition_loop_steps": 3500, "loop_conditional_vs_joint": 500, "autoname_names_checked": 150},
+                               "recondition_loop_steps": 3500, "loop_conditional_vs_joint": 500, "autoname_names_checked": 150, "state_checked_after_malformed_op": 700, "malformed_ops_refused": 400},
                      "thorough": {"original_fingerprints_compared": 40000, "fingerprint_fields_compared": 2000000,
                                   "derived_fingerprints_compared": 50000, "twin_fingerprints_compared": 22000,
                                   "sibling_vs_fresh_derivation": 10000, "copy_name_checked": 40000, "origin_chain_checked": 30000,
                                   "op_results_vs_baseline": 30000, "cond_consistency_checked": 30000, "model_args_vs_reference": 1500,
                                   "sampler_runs_completed": 1500, "gibbs_sweeps_observed": 3000, "gibbs_chain_vs_untouched_twin": 70,
-                                  "recondition_loop_steps": 60000, "loop_conditional_vs_joint": 8000, "autoname_names_checked": 1300}}
+                                  "recondition_loop_steps": 60000, "loop_conditional_vs_joint": 8000, "autoname_names_checked": 1300, "state_checked_after_malformed_op": 7000, "malformed_ops_refused": 4000}}
 BUDGET_S = {"quick": 600.0, "thorough": 3000.0}   # watchdog only; typical use is far below (see report)
 
 RTOL, ATOL = 1e-9, 1e-12
@@ -64,7 +64,8 @@ def _hier_opts(R, tier):
     return {"n": n, "m": R.randint(3, 8), "xprior": R.choice(G.HIER_XPRIORS), "noise": R.choice(G.HIER_NOISES),
             "model": R.choice(G.HIER_MODELS), "lik": R.choice(G.HIER_LIKS), "ndata": R.choice([1, 1, 1, 2, 3]),
             "xmean": R.choice(["zero", "vec"]), "bc": bc, "gorder": gorder, "arg": R.choice(["x", "u"]), "hyper": R.choice(["gamma", "gamma", "uniform", "invgamma"]),
-            "order": R.randint(0, 719), "defer": R.choice(G.DEFERRED)}
+            "order": R.randint(0, 719), "defer": R.choice(G.DEFERRED),
+            "scale": R.choice([1.0, 1.0, 1.0, 1.0, 1e-4, 1e4])}   # magnitude of forward operator, data and noise level
 
 def _chain_opts(R, tier):
     return {"k": R.choice([1, 1, 2, 3]), "a": R.choice(G.CHAIN_ROOTS), "b": R.choice(G.CHAIN_B), "c": R.choice(G.CHAIN_C),
@@ -219,6 +220,7 @@ def _build_hier(W, o, rs):
     D, IP = cuqi.distribution, cuqi.implicitprior
     n, m = o["n"], o["m"]
     st = W.st
+    sc = 1.0 if o["lik"] == "lognormal" else float(o.get("scale", 1.0))
     # ---- hyper-parameters
     def hyper(name):
         if o["hyper"] == "gamma":
@@ -321,14 +323,14 @@ def _build_hier(W, o, rs):
         if kind == "sqrtcov_l":
             return {"sqrtcov": lambda l: 1 / np.sqrt(l)}
         if kind == "fixed_s":
-            return {"cov": 0.3}
+            return {"cov": 0.3 * sc ** 2}
         if kind == "fixed_v":
-            return {"cov": rs.uniform(0.2, 1.0, mm)}
-        return {"cov": 0.3 * _spd(rs, mm)}
+            return {"cov": rs.uniform(0.2, 1.0, mm) * sc ** 2}
+        return {"cov": 0.3 * _spd(rs, mm) * sc ** 2}
     for k in range(1, o["ndata"] + 1):
         name = "y" if k == 1 else "y%d" % k
         mm = m if k == 1 else int(rs.randint(2, 6))
-        A = rs.standard_normal((mm, n)) / np.sqrt(n)
+        A = sc * rs.standard_normal((mm, n)) / np.sqrt(n)
         kind = o["model"] if k == 1 else ("mat" if k == 2 else "fun")
         M = make_model(kind, A, "M%d" % k)
         if M is None:   # raw callable, no Model object
@@ -342,10 +344,10 @@ def _build_hier(W, o, rs):
         elif lik == "lognormal":   # inner Gaussian needs a dimension: fixed full covariance (no l-dependence, see refs)
             y = D.Lognormal(loc, 0.3 * _spd(rs, mm), name=name, geometry=mm)
         else:
-            sc = (lambda l: 1 / l) if "l" in st["deps"] else 0.5
-            y = D.Laplace(loc, sc, name=name, geometry=mm)
+            lsc = (lambda l: 1 / l) if "l" in st["deps"] else 0.5 * sc
+            y = D.Laplace(loc, lsc, name=name, geometry=mm)
         W.dists[name] = y
-        W.probes[name] = _probe(rs, st["support"][name], mm)
+        W.probes[name] = [sc * v for v in _probe(rs, st["support"][name], mm)]
         W.data_names.append(name)
     W.loose["z"] = D.Gaussian(np.zeros(n), 1.5, name="z")
     W.probes["z"] = _probe(rs, "real", n)
@@ -878,7 +880,7 @@ def check_cond_consistency(W, parent, child, fixed, ctx, cfg):
 # --------------------------------------------------------------------------- the operation program
 
 OPS = [("cond", 30), ("cond_empty", 4), ("logd", 14), ("gradient", 8), ("sample", 8), ("to_lik", 6), ("model_apply", 4),
-       ("model_eval", 3), ("fd", 5), ("compute_cov", 3), ("get_matrix", 2), ("sampler", 3), ("stacked", 2)]
+       ("model_eval", 3), ("fd", 5), ("compute_cov", 3), ("get_matrix", 2), ("sampler", 3), ("stacked", 2), ("malformed", 9)]
 MAX_ALIVE = 6
 
 def _field_family(k):
@@ -961,6 +963,8 @@ class Runner:
         cfg = {**self.cfg, "object": ent.cls, "field": fam}
         if culprit:
             cfg["op"] = culprit.get("op"); cfg["on"] = culprit.get("target_cls")
+            if culprit.get("malformed"):
+                cfg["malformed"] = culprit["malformed"]
         detail = (f"{ent.id} ({ent.cls}) changed at {where} after op #{self.op_index} ({self.last_op}); fields {fields[:8]}; "
                   f"{k}: before {_show(ent.fp_ref.get(k))} now {_show(fnow.get(k))}; first operation after which a fingerprint differs: {culprit}")
         self.ctx.violation(mech, cfg, detail=detail, witness={"fields": fields[:20], "culprit": culprit, "events": len(self.events)})
@@ -1219,6 +1223,68 @@ class Runner:
         recipe = ("stacked", e.id)
         child = derive(self.W, self.objs, recipe)
         self._add_derived(child, recipe, e)
+
+    def op_malformed(self):
+        """A malformed request (unknown / misspelled keyword, surplus positionals, doubly specified variable, missing
+        variable, wrong-shaped value, sampling a conditional, bad gradient call, sampler on an unsuitable target). Whether it
+        is refused is C01's business; here it must leave the target - checked at once - and everything else untouched."""
+        cuqi = self.cuqi
+        e = self._pick(self._is_density)
+        if e is None:
+            return
+        self._note_target(e)
+        obj = e.obj
+        nm = _val(lambda: list(obj.get_parameter_names()))
+        names = nm[1] if nm[0] == "v" and isinstance(nm[1], list) else []
+        known = [p_ for p_ in names if p_ in self.W.probes]
+        kinds = ["unknown_kw", "misspelled_kw", "surplus_pos", "missing_logd", "bad_gradient", "sampler_on_unsuitable", "unknown_kw_logd"]
+        if known:
+            kinds += ["double_spec", "wrong_shape", "misspelled_kw", "unknown_kw_mixed"]
+        if e.fp_ref.get("is_cond") == ("v", True):
+            kinds.append("sample_conditional")
+        kind = kinds[int(self.rs.randint(len(kinds)))]
+        self.last_op["malformed"] = kind
+        j = int(self.rs.randint(3))
+        v0 = self.W.probes[known[0]][j] if known else 1.0
+        E, S = cuqi.experimental.mcmc, cuqi.sampler
+        def call():
+            if kind == "unknown_kw":
+                return obj(sigma_zz=2.0)
+            if kind == "misspelled_kw":
+                return obj(**{(known[0] if known else "x") + "_": v0})
+            if kind == "unknown_kw_mixed":
+                return obj(**{known[0]: v0, "sigma_zz": 2.0})
+            if kind == "unknown_kw_logd":
+                return obj.logd(**{**{p_: self.W.probes[p_][j] for p_ in known}, "sigma_zz": 2.0})
+            if kind == "surplus_pos":
+                return obj(*([v0] * (len(names) + 2)))
+            if kind == "double_spec":
+                return obj(v0, **{names[0]: v0})
+            if kind == "missing_logd":
+                return obj.logd(**{p_: self.W.probes[p_][j] for p_ in known[1:]})
+            if kind == "wrong_shape":
+                big = np.ones(np.size(v0) + 3)
+                return obj.logd(**{**{p_: self.W.probes[p_][j] for p_ in known[1:]}, known[0]: big})
+            if kind == "sample_conditional":
+                return obj.sample(2)
+            if kind == "bad_gradient":
+                return obj.gradient()
+            menu = [lambda: S.LinearRTO(obj), lambda: S.Conjugate(obj), lambda: E.Conjugate(obj), lambda: E.LinearRTO(obj),
+                    lambda: E.NUTS(obj), lambda: S.pCN(obj), lambda: E.UGLA(obj), lambda: S.NUTS(obj), lambda: E.Direct(obj)]
+            return menu[int(self.rs.randint(len(menu)))]()
+        try:
+            call()
+            self.ctx.count("malformed_ops_returned")
+        except Exception as ex:  # noqa - any refusal type; only the after-state is judged here
+            self.ctx.count("malformed_ops_refused")
+            self.ctx.refused("malformed_" + kind, ex)
+        self.ctx.count("malformed:" + kind)
+        # the target itself, right away (gives the attribution); siblings / originals / twin at the regular checkpoints
+        if e.id[0] in "om":
+            self._check_original(e, "after malformed request (%s)" % kind)
+        else:
+            self._check_derived(e, "after malformed request (%s)" % kind)
+        self.ctx.count("state_checked_after_malformed_op")
 
     def op_sampler(self):
         W = self.W
